@@ -169,6 +169,16 @@ func denote0(v JV, t reflect.Type, path string) Den {
 		if named && path == "call" {
 			d.Known = append(d.Known, KNamedType)
 		}
+		if v.K == "sp" && v.S == "tostr" && len(v.E) == 1 && v.E[0].K == "num" {
+			// the Number a toString method returns is formatted by the same code
+			x := v.E[0].Float()
+			if isNearLayoutThreshold(x) {
+				return anyDen("to-string:num-layout-threshold")
+			}
+			if path == "call" && v.E[0].GoKind() == "float64" && goFormatV(x) != s {
+				d.Known = append(d.Known, KNumToStr)
+			}
+		}
 		if v.K == "num" {
 			x := v.Float()
 			if isNearLayoutThreshold(x) {
